@@ -1,5 +1,5 @@
 """C03 -- the canonical string is a fixed point of parsing."""
-from .common import run_model, run_progs
+from .common import run_model, run_progs, run_value_machine
 from .quoterlevel import run_quoter_level
 
 FINISH = dict(rule="R1 MC_Quoters Inv_C03 (requoters idempotent) + MC_Split Inv_Recompose (str() re-parses to the same parts); "
@@ -11,6 +11,7 @@ FIELDS = ["str", "val", "scheme", "raw_user", "user", "raw_password", "password"
 
 def run(out, sc, tier, seed):
     run_quoter_level(out, sc, tier, seed, "C03")
+    run_value_machine(out, sc, "C03", tier, fields=FIELDS, extras=["reparse"])
     run_model(out, sc, "MC_Split", ["Inv_Recompose"], ["MaxLen = %d" % (4 if tier == "quick" else 5), "Alphabet <- DelimAlphabet"],
               label="MC_Split[recompose]")
     n = 10000 if tier == "quick" else 250000
